@@ -172,6 +172,10 @@ func (g *ArtGen) textKind() TokKind {
 }
 
 // fillerWords are the only words besides tokens that generated pages contain.
+// escapedLiterals are words whose source form uses character references for
+// characters that look like markup; {source form, visible word}.
+var escapedLiterals = [][2]string{{"caf&amp;eacute;", "caf&eacute;"}, {"&lt;Integer&gt;", "<Integer>"}, {"&amp;lt;b&amp;gt;", "&lt;b&gt;"}, {"a&lt;b", "a<b"}, {"&amp;amp;", "&amp;"}}
+
 var nonASCIIFillers = []string{"città", "Århus", "Šiauliai", "naïve", "Рх", "straße", "déjà", "œuvre", "Ελλάδα", "señor", "Ünal", "†"}
 
 func (g *ArtGen) toks(n int) string {
@@ -644,6 +648,10 @@ func (g *ArtGen) figure() {
 	default: // plain caption (re-created from its text)
 		g.push("figcaption-plain")
 		g.w("<figcaption" + g.noise() + ">" + g.toks(2+g.r.Intn(7)))
+		if g.P.Figures && g.r.Chance(1, 4) {
+			// a caption that talks about markup: escaped characters are text, not markup
+			g.w(" " + escapedLiterals[g.r.Intn(len(escapedLiterals))][0] + " " + g.toks(1))
+		}
 		if g.P.Hidden && g.r.Chance(1, 2) {
 			g.hiddenInline()
 		}
